@@ -6,19 +6,24 @@ Import ListNotations.
 Local Open Scope Q_scope.
 
 (* A routine that returns None is observed as []; a routine that writes a NaN row as [FNan; FNan; FNan]. *)
-(* Points are compared with a tolerance relative to the magnitude `mg` of the input data: a coordinate of a crossing
-   point can vanish by cancellation while its rounding error is relative to the inputs. *)
+(* Points are compared with a tolerance relative to the magnitude `mg` of the input data, without an absolute floor
+   (geometry at scale 1e-9 is compared as strictly as geometry at scale 1): a coordinate of a crossing point can vanish by
+   cancellation while its rounding error is relative to the inputs. *)
+Definition close_rel (mg a b : Q) : bool :=
+  Qle_bool (Qabs (a - b)) (tol * Qmax' mg (Qmax' (Qabs a) (Qabs b))).
+Definition fl_close_rel (mg m : Q) (o : fl) : bool := match o with Fin q => close_rel mg m q | _ => false end.
+Definition vec_close_rel mg (m : vec3 Q) (o : list fl) : bool := all2 (fl_close_rel mg) (vlist m) o.
 Definition row_opt (mg : Q) (m : option (vec3 Q)) (o : list fl) : bool :=
-  match m with None => match o with [] => true | _ => false end | Some v => vec_close_mag mg v o end.
+  match m with None => match o with [] => true | _ => false end | Some v => vec_close_rel mg v o end.
 Definition row_nan (mg : Q) (m : option (vec3 Q)) (o : list fl) : bool :=
   match m with
   | None => match o with [x; y; z] => fl_is_nan x && fl_is_nan y && fl_is_nan z | _ => false end
-  | Some v => vec_close_mag mg v o
+  | Some v => vec_close_rel mg v o
   end.
 Definition rows_opt mg := all2 (row_opt mg).
 Definition rows_nan mg := all2 (row_nan mg).
 Definition vmag (v : vec3 Q) : Q := Qmax' (Qabs (vx v)) (Qmax' (Qabs (vy v)) (Qabs (vz v))).
-Definition mag (ps : list (vec3 Q)) : Q := fold_left (fun m p => Qmax' m (vmag p)) ps 1.
+Definition mag (ps : list (vec3 Q)) : Q := fold_left (fun m p => Qmax' m (vmag p)) ps 0.
 
 Inductive case :=
 (* one plane, a stack of segments a_i b_i: single and stacked form of line_segment_xsection(s), and
@@ -65,20 +70,25 @@ Definition check_case (c : case) : bool :=
       all2m (row_nan mg) mask
             (intersect_segments_with_planes QOps a segv (repeat (pref pl) k) (repeat (pnormal pl) k)) isp_stack
   | CLines exact band pl pts rays single st_rows st_valid =>
-      (* the rounding error of ray.normal is relative to the length of the ray: band 1e-6 |ray| *)
-      let mask := map (fun r => exact || away ((1 # 1000000) * vmag r) (xs_denom QOps pl r)) rays in
+      (* the rounding error of ray.normal is relative to the length of the ray: band 1e-12 |ray| *)
+      let mask := map (fun r => exact || away ((1 # 1000000000000) * vmag r) (xs_denom QOps pl r)) rays in
       let m := mag (pref pl :: pts ++ rays) in
       Nat.eqb (length pts) (length rays) &&
       all2m (row_opt m) mask (map2 (line_xsection QOps pl) pts rays) single &&
       all2m (row_nan m) mask (fst (line_xsections QOps pl pts rays)) st_rows &&
       all2m Bool.eqb mask (snd (line_xsections QOps pl pts rays)) st_valid
   | CPoly exact band pl v closed pts idx pts_only =>
-      (* which edges are reported depends on every vertex: a polyline with an undecided vertex is skipped as a whole
-         (such cases carry the kind suffix _undecided in the evidence histogram) *)
-      negb (robust_pts exact band pl v) ||
-      (let r := intersect_plane QOps pl (MkPolyline v closed) in
-       let m := mag (pref pl :: v) in
-       rows_nan m (fst r) pts && nat_list_eqb (snd r) idx && rows_nan m (fst r) pts_only)
+      (* per edge (C14_intersect_plane_per_edge): whether an edge is reported, and with which point, depends on its own
+         two ends only; edges with an undecided end are left out of the comparison on both sides, all others are judged *)
+      let dec := map (fun p => exact || away band (plane_sd QOps pl p)) v in
+      let n := length v in
+      let edge_ok (k : nat) := nth k dec false && nth (Nat.modulo (S k) n) dec false in
+      let keep {A} (l : list (nat * A)) := filter (fun x => edge_ok (fst x)) l in
+      let m := mag (pref pl :: v) in
+      let same (x : nat * option (vec3 Q)) (y : nat * list fl) := Nat.eqb (fst x) (fst y) && row_nan m (snd x) (snd y) in
+      Nat.eqb (length idx) (length pts) && Nat.eqb (length idx) (length pts_only) &&
+      all2 same (keep (intersect_plane_hits QOps pl (MkPolyline v closed))) (keep (zip idx pts)) &&
+      all2 same (keep (intersect_plane_hits QOps pl (MkPolyline v closed))) (keep (zip idx pts_only))
   | CIsp starts segvs pops nrms rows single =>
       let m := mag (starts ++ segvs ++ pops) in
       rows_nan m (intersect_segments_with_planes QOps starts segvs pops nrms) rows &&
